@@ -22,6 +22,14 @@ claim(
     "DESIGN.md §4 C13, §3",
 )
 
+claim(
+    "C27",
+    "Lean 4 proof over a line-by-line integer model of moved_fraction / _rechunk_stage_transfer + exact behavioural correspondence + model-independent search over layout pairs and every node of raw/simplified/lowered/fused trees",
+    "Proved for all layouts and ranks: moved fraction in [0,1], 0 for identical layouts and pure splits (zero-length blocks allowed); rechunk stage 0 <= min <= max for any rank; (0,0) for identical positive layouts. The other per-class transfer formulas are covered by the node search only (stated in evidence).",
+    "Trusted: Lean kernel (+propext, Classical.choice, Quot.sound), Py/Basic.lean, the correspondence harness (integer numerator/total; the single float division is reproduced). Not modelled: per-class formulas other than Rechunk (search only); NaN direction checked by search.",
+    "DESIGN.md §4 C27",
+)
+
 
 def build():
     props = [json.loads(l) for l in (VERIF / "properties.jsonl").read_text().splitlines() if l.strip()]
